@@ -518,14 +518,16 @@ def c_pack(rng):
     active_second = rng.random() < 0.5
     cols = {'p0': other.arr, 'v': list(range(n)), 'shape': cs.arr}
     df = sp.GeoDataFrame(cols)
-    if active_second:
+    # the active geometry is switched on the pandas frame before it is partitioned, or only on the Dask frame
+    switch = rng.choice(['pandas', 'dask']) if active_second else 'none'
+    if switch == 'pandas':
         df = df.set_geometry('shape')
     act = 'shape' if active_second else 'p0'
     akind, aview = (kind, cs.view) if active_second else ('point', other.view)
     npart_in = rng.choice([1, 2, 3])
     npart_out = rng.choice([1, 2, 3])
     p = rng.choice([1, 2, 5, 10, 16, 17, 20])
-    recipe = {'shape': cs.recipe, 'points': other.recipe, 'active': act, 'npart_in': npart_in, 'npart_out': npart_out, 'p': p}
+    recipe = {'shape': cs.recipe, 'points': other.recipe, 'active': act, 'switch': switch, 'npart_in': npart_in, 'npart_out': npart_out, 'p': p}
     tag = f'{"active-not-first" if active_second else "active-first"}/{region_of(aview)}'
     out = []
     with dask.config.set(scheduler='synchronous'):
